@@ -403,6 +403,9 @@ func (w *world) get(id int, valInt bool, final bool) string {
 		// sub-router (even ids); and, mounted or not, the sub-router still serves its own routes itself
 		want := rec.Code == http.StatusOK
 		extra := []string{"/m" + strconv.Itoa(id) + "/docs/"}
+		if a.RK >= 5 {
+			extra = append(extra, "/m"+strconv.Itoa(id)+"/late")
+		}
 		if a.R%2 == 0 {
 			extra = append(extra, "/twin"+w.reqPath(id, valInt), "/twin/m"+strconv.Itoa(id)+"/docs/")
 		}
@@ -621,6 +624,7 @@ func runPhases(id string, k caseT, st *hx.Stats) string {
 			sub.GET("/docs/", w.handler(a.R)) // a static route that ends in a slash: mounted as <prefix>/docs/
 			if a.RK >= 5 {                    // a sub-router that served (or was warmed up) on its own before it is mounted
 				sub.Warmup()
+				sub.GET("/late", w.handler(a.R)) // … and was extended afterwards (goes straight into its trees)
 			}
 			w.subs[a.R] = sub
 		}
@@ -1420,6 +1424,21 @@ func runApp(id string, viaRequest bool, st *hx.Stats) string {
 			}
 		}
 		reqPath := func(sh shapeT) string { return sh.prefix + strings.ReplaceAll(sh.pattern, ":id", "12") }
+		// a start-up that fails before anything is served (an OnStart hook returns an error): no request has been handed
+		// over, nobody called Freeze or Warmup — the configuration phase goes on (seeded C12-28)
+		failed := false
+		a.OnStart(func(context.Context) error {
+			if !failed {
+				failed = true
+				return errors.New("dependency not ready (first attempt)")
+			}
+			return nil
+		})
+		if err := a.Start(context.Background()); err == nil {
+			fail("app.Start with a failing OnStart hook returned nil")
+		} else if a.Router().Frozen() {
+			fail("a start-up that failed in an OnStart hook (%v) left the router frozen", err)
+		}
 		for i, sh := range shapes {
 			id := "e" + strconv.Itoa(i)
 			var rt *route.Route
@@ -1686,16 +1705,26 @@ func runRewarm(id string, seed uint64, trials int, st *hx.Stats) string {
 		}
 		rt := router.MustNew(opts...)
 		h := func(c *router.Context) { _ = c.String(http.StatusOK, "ok") }
+		hp := func(p string) router.HandlerFunc {
+			// every static route answers with its own path (a request answered by ANOTHER route's handler is a wrong table too)
+			return func(c *router.Context) {
+				c.Response.Header().Set("X-Own", p)
+				h(c)
+			}
+		}
 		v1 := rt.Version("v1")
 		for i := 0; i < 24; i++ {
-			rt.GET("/s"+strconv.Itoa(i), h)
-			rt.POST("/p"+strconv.Itoa(i), h)
-			v1.GET("/v"+strconv.Itoa(i), h)
+			rt.GET("/s"+strconv.Itoa(i), hp("/s"+strconv.Itoa(i)))
+			rt.POST("/p"+strconv.Itoa(i), hp("/p"+strconv.Itoa(i)))
+			v1.GET("/v"+strconv.Itoa(i), hp("/v"+strconv.Itoa(i)))
 		}
 		rt.GET("/r0/:id", h)
 		do := func(m, p string) int {
 			rec := httptest.NewRecorder()
 			rt.ServeHTTP(rec, httptest.NewRequest(m, p, nil))
+			if own := rec.Header().Get("X-Own"); rec.Code == http.StatusOK && own != "" && own != p {
+				return 1000 // answered by the handler of another route
+			}
 			return rec.Code
 		}
 		if r.Chance(1, 2) {
@@ -1735,6 +1764,24 @@ func runRewarm(id string, seed uint64, trials int, st *hx.Stats) string {
 							fail("trial %d: %s %s answered %d, want %d", t, c.m, c.p, got, c.want)
 							return
 						}
+					}
+				}
+			}(g)
+		}
+		// … and goroutines that only ask for static routes of ONE table each (the version's compiled table / the main
+		// one) in a tight loop, from the racing first request on: every answer must come from the route's own handler
+		// (seeded C12-26: scratch state of the compiled table shared under its read lock)
+		for g := 0; g < 4; g++ {
+			wg.Add(1)
+			go func(g int) {
+				defer wg.Done()
+				<-start
+				pre := []string{"/v", "/s"}[g%2]
+				for i := 0; i < 1500; i++ {
+					p := pre + strconv.Itoa((i*7+g*5)%24)
+					if got := do("GET", p); got != 200 {
+						fail("trial %d: GET %s answered %d (1000 = by the handler of another route) while other requests hit the same table", t, p, got)
+						return
 					}
 				}
 			}(g)
@@ -1983,7 +2030,7 @@ func main() {
 			if n%5 == 4 {
 				k.Comp = true // compiled route matching in front of the trees (opt-in configuration)
 			}
-			if n%4 == 1 {
+			if n%8 == 1 {
 				k.App = true // the same through the app layer
 			}
 			fmt.Fprintln(w, runPhases(fmt.Sprintf("c12-%d-%d", a.Seed, n), k, st))
